@@ -42,6 +42,7 @@ MUTS2 = [
  ('N10', 'C05', 'src/primitives/rounded_rectangle/ellipse_quadrant.rs', 'Quadrant::TopRight => top_left - radius.x_axis(),', 'Quadrant::TopRight => top_left - radius.y_axis(),', 'break', 'EllipseQuadrant::new: x_axis -> y_axis', 0),
  ('N11', 'C18', 'src/primitives/common/plane_sector.rs', 'distance_left <= -inside_threshold,', 'distance_left <= inside_threshold,', 'break', 'PlaneSector::point_type: dropped negation', 0),
  ('N12', 'C02', 'src/primitives/circle/styled.rs', 'let offset = style.outside_stroke_width().saturating_as();\n\n        self.bounding_box().offset(offset)', 'let offset = style.inside_stroke_width().saturating_as();\n\n        self.bounding_box().offset(offset)', 'break', 'Circle styled_bounding_box: outside -> inside stroke width', 0),
+ ('N13', 'C11', 'core/src/pixelcolor/raw/load_store.rs', '(*byte & !(Self::MASK << bit_index)) | (self.into_inner() << bit_index);', '(*byte & (Self::MASK << bit_index)) | (self.into_inner() << bit_index);', 'break', 'impl_load_store_bits! store (macro body, slice idiom): dropped `!`', 0),
  ('Q1', 'C17', 'src/primitives/line/thick_points.rs', None, None, 'preserve', 'next_parallel: local error_before_decrease renamed', 0),
  ('Q2', 'C05', 'src/primitives/rounded_rectangle/mod.rs', 'let rows = rounded_rectangle.rectangle.rows();\n        let columns = rounded_rectangle.rectangle.columns();', 'let columns = rounded_rectangle.rectangle.columns();\n        let rows = rounded_rectangle.rectangle.rows();', 'preserve', 'RoundedRectangleContains::new: independent lets reordered', 0),
 ]
